@@ -194,7 +194,7 @@ def check_obligations_one(ctx, props_file, extra=()):
                 res["theorems"][t] = "not checked (build failed)"
             res["build_error"] = where
             return res
-        r = subprocess.run(["timeout", "600", "coqc", "-Q", "theories", "QV", "-w", "-all",
+        r = subprocess.run(["timeout", "1800", "coqc", "-Q", "theories", "QV", "-w", "-all",
                             "-o", os.path.join(ctx.workdir, props_file + ".vo"),
                             f"theories/{props_file}.v"], cwd=COQDIR, stdout=subprocess.PIPE,
                            stderr=subprocess.STDOUT, text=True)
@@ -235,8 +235,12 @@ def coq_eval(ctx, name, source, timeout=900):
     path = os.path.join(ctx.workdir, name + ".v")
     with open(path, "w") as f:
         f.write(source)
-    r = subprocess.run(["timeout", str(timeout), "coqc", "-Q", THEORIES, "QV", "-w", "-all", name + ".v"],
-                       cwd=ctx.workdir, stdout=subprocess.PIPE, stderr=subprocess.STDOUT, text=True)
+    cmd = ["coqc", "-Q", THEORIES, "QV", "-w", "-all", name + ".v"]
+    r = subprocess.run(["timeout", str(timeout)] + cmd, cwd=ctx.workdir, stdout=subprocess.PIPE, stderr=subprocess.STDOUT, text=True)
+    if r.returncode == 124:
+        # the wall-clock limit was hit (a loaded machine): one more attempt with three times the limit, then give up
+        r = subprocess.run(["timeout", str(3 * timeout)] + cmd, cwd=ctx.workdir, stdout=subprocess.PIPE, stderr=subprocess.STDOUT,
+                           text=True)
     return r.returncode == 0, r.stdout
 
 
